@@ -6,6 +6,7 @@ import (
 	"errors"
 	"fmt"
 	"math/rand"
+	"reflect"
 	"runtime"
 	"runtime/debug"
 	"runtime/metrics"
@@ -385,4 +386,62 @@ func TopFrame(stack string) string {
 		}
 	}
 	return ""
+}
+
+// WalkNodes calls f for every AST node reachable from root through exported fields.
+func WalkNodes(root any, f func(parser.Node)) {
+	seen := map[uintptr]bool{}
+	var walk func(v reflect.Value)
+	walk = func(v reflect.Value) {
+		switch v.Kind() {
+		case reflect.Interface:
+			if !v.IsNil() {
+				walk(v.Elem())
+			}
+		case reflect.Ptr:
+			if v.IsNil() || seen[v.Pointer()] {
+				return
+			}
+			seen[v.Pointer()] = true
+			if v.CanInterface() {
+				if n, ok := v.Interface().(parser.Node); ok {
+					f(n)
+				}
+			}
+			walk(v.Elem())
+		case reflect.Struct:
+			for i := 0; i < v.NumField(); i++ {
+				if v.Type().Field(i).IsExported() {
+					walk(v.Field(i))
+				}
+			}
+		case reflect.Slice, reflect.Array:
+			for i := 0; i < v.Len(); i++ {
+				walk(v.Index(i))
+			}
+		case reflect.Map:
+			for _, k := range v.MapKeys() {
+				walk(v.MapIndex(k))
+			}
+		}
+	}
+	walk(reflect.ValueOf(root))
+}
+
+// UnboundedRepetition reports whether prog contains an array repetition whose count is
+// not a small literal (finding F53: the evaluator allocates the whole result at once,
+// a large count exhausts the memory of the host).
+func UnboundedRepetition(prog *parser.Program) bool {
+	found := false
+	WalkNodes(prog, func(n parser.Node) {
+		b, ok := n.(*parser.BinaryExpression)
+		if !ok || b.Op != parser.OP_ASTERISK || b.Left == nil || b.Left.Type() == nil || b.Left.Type().Name != parser.ARRAY {
+			return
+		}
+		if lit, ok := b.Right.(*parser.NumLiteral); ok && lit.Value <= 10 {
+			return
+		}
+		found = true
+	})
+	return found
 }
